@@ -592,6 +592,28 @@ func (r *renderer) cmpLin(v ssa.Value) Lin {
 
 func (p *Prog) ParseAtom(s string) (Atom, error) {
 	s = strings.TrimSpace(s)
+	// @pkg.Const anywhere in the spec (also inside call terms) is the constant's value
+	if strings.Contains(s, "@") {
+		var sb strings.Builder
+		for i := 0; i < len(s); {
+			if s[i] != '@' {
+				sb.WriteByte(s[i])
+				i++
+				continue
+			}
+			j := i + 1
+			for j < len(s) && (s[j] == '_' || s[j] == '/' || s[j] == '.' || s[j] >= '0' && s[j] <= '9' || s[j] >= 'a' && s[j] <= 'z' || s[j] >= 'A' && s[j] <= 'Z') {
+				j++
+			}
+			c, ok := p.Object(s[i+1 : j]).(*types.Const)
+			if !ok {
+				return Atom{}, fmt.Errorf("constant %s not found", s[i:j])
+			}
+			sb.WriteString(constant.ToInt(c.Val()).ExactString())
+			i = j
+		}
+		s = sb.String()
+	}
 	ops := []string{"<=", ">=", "==", "!=", "<", ">"}
 	depth := 0
 	inStr := false
